@@ -714,6 +714,12 @@ func (x *runner) menuPart(part string, k tokenKind, base, other proto.Message, s
 		{"n3-pusht-ret-with-issuer-script", func(m proto.Message) {
 			setSig(m, &refs.Signature{Scheme: refs.SignatureScheme(vkit.N3), Key: victim.Priv.PublicKey().GetVerificationScript(), Sign: []byte{0x08, 0x40}})
 		}},
+		{"n3-truncated-push-swallows-the-verification-script", func(m proto.Message) {
+			// account whose verification script is PUSHF (nobody can sign for it); invocation script = PUSHDATA1 1 without
+			// operand: run concatenated it swallows the script and leaves one truthy item
+			setIssuer(m, user.NewFromScriptHash(hash.Hash160([]byte{0x09})))
+			setSig(m, &refs.Signature{Scheme: refs.SignatureScheme(vkit.N3), Key: []byte{0x09}, Sign: []byte{0x0c, 0x01}})
+		}},
 		{"n3-attacker-witness-for-issuer-account", func(m proto.Message) {
 			n3 := signer("mallory", vkit.N3)
 			setSig(m, &refs.Signature{Scheme: refs.SignatureScheme(vkit.N3), Key: n3.KeyBytes(), Sign: n3.Sign(vkit.Enc(bodyOf(m)))})
